@@ -142,8 +142,8 @@ func enterSeq(r *ReqRec) string {
 
 func init() {
 	rule := "a run is non-trivial when the cache served at least one hit or stored at least two entries"
-	register(&Profile{Prop: "C07", Name: "sequential", Quick: 8000, Thorough: 500000, Gen: genC07(false, false), Check: checkC07, Rule: rule})
-	register(&Profile{Prop: "C07", Name: "concurrent", Quick: 5000, Thorough: 300000, Gen: genC07(true, false), Check: checkC07, Rule: rule})
-	register(&Profile{Prop: "C07", Name: "sequential-cacheloss", Quick: 5000, Thorough: 300000, Gen: genC07(false, true), Check: checkC07, Rule: rule, Faulty: true})
-	register(&Profile{Prop: "C07", Name: "concurrent-cacheloss", Quick: 5000, Thorough: 300000, Gen: genC07(true, true), Check: checkC07, Rule: rule, Faulty: true})
+	register(&Profile{Prop: "C07", Name: "sequential", Quick: 24000, Thorough: 500000, Gen: genC07(false, false), Check: checkC07, Rule: rule})
+	register(&Profile{Prop: "C07", Name: "concurrent", Quick: 15000, Thorough: 300000, Gen: genC07(true, false), Check: checkC07, Rule: rule})
+	register(&Profile{Prop: "C07", Name: "sequential-cacheloss", Quick: 15000, Thorough: 300000, Gen: genC07(false, true), Check: checkC07, Rule: rule, Faulty: true})
+	register(&Profile{Prop: "C07", Name: "concurrent-cacheloss", Quick: 15000, Thorough: 300000, Gen: genC07(true, true), Check: checkC07, Rule: rule, Faulty: true})
 }
